@@ -67,7 +67,7 @@ def _odd_user_graph(n, rng):
 
 
 def check(run, driver):
-    from common import ModuleEntryPoints
+    from common import ModuleEntryPoints, call_form
     S = ModuleEntryPoints("causationentropy.datasets.synthetic", "causationentropy.datasets")     # both public paths, in turn
 
     run.rule = (
@@ -100,7 +100,7 @@ def check(run, driver):
         st_np, st_py = np.random.get_state()[1].copy(), random.getstate()
         Gsnap = None if G is None else (list(G.nodes(data=True)), [(a, b, dict(d)) for a, b, d in G.edges(data=True)])
         with patched(S, "np", shim):
-            XY, A = S.linear_stochastic_gaussian_process(G=G, **cfg)      # the SAME graph object is handed in on every call
+            XY, A = call_form(S.linear_stochastic_gaussian_process, "linear_stochastic_gaussian_process", it, G=G, **cfg)      # the SAME graph object is handed in on every call; every documented call form in turn
         globals_untouched = np.array_equal(st_np, np.random.get_state()[1]) and st_py == random.getstate()
         # same seed again, after unrelated global RNG activity
         np.random.rand(5); random.random()
@@ -190,7 +190,7 @@ def check(run, driver):
         shim = NpShim()
         st_np, st_py = np.random.get_state()[1].copy(), random.getstate()
         with patched(S, "np", shim):
-            X, A = S.poisson_coupled_oscillators(G=G, **cfg)
+            X, A = call_form(S.poisson_coupled_oscillators, "poisson_coupled_oscillators", it, G=G, **cfg)
         globals_untouched = np.array_equal(st_np, np.random.get_state()[1]) and st_py == random.getstate()
         np.random.rand(3)
         X2, A2 = S.poisson_coupled_oscillators(G=G, **cfg)
